@@ -27,8 +27,8 @@ def valueIn (a : ArgDef) (raw : Bytes) : Prop :=
 /-- a recorded argument sits in a slot of the definition that admits its kind and its value -/
 def ArgT (TokP : Tok → Prop) (d : CmdDef) : Arg → Prop
   | .str k raw => ∃ a ∈ d.args, a.name = k ∧ valueIn a raw ∧ ∃ t, TokArg TokP raw t ∧ validType t a.types = true
-  | .strs k _ => ∃ a ∈ d.args, a.name = k ∧ validType .stringlist a.types = true ∧
-      a.values.isNone = true ∧ a.extValues.isEmpty = true
+  | .strs k l => (∃ a ∈ d.args, a.name = k ∧ validType .stringlist a.types = true ∧
+      a.values.isNone = true ∧ a.extValues.isEmpty = true) ∧ ItemsP TokP l
   | _ => True
 
 /-- the value list of a tag parameter admits the text exactly, or there is none -/
@@ -40,7 +40,8 @@ def paramIn (e : ExtraDef) (raw : Bytes) : Prop :=
 /-- a recorded tag parameter sits under a slot whose `extra_arg` admits its kind and its value -/
 def ExtraT (TokP : Tok → Prop) (d : CmdDef) : Arg → Prop
   | .str k raw => ∃ c ∈ d.args, c.name = k ∧ ∃ e, c.extra = some e ∧ paramIn e raw ∧ ∃ t, TokArg TokP raw t ∧ atypeIn t e = true
-  | .strs k _ => ∃ c ∈ d.args, c.name = k ∧ ∃ e, c.extra = some e ∧ e.values = none ∧ atypeIn .stringlist e = true
+  | .strs k l => (∃ c ∈ d.args, c.name = k ∧ ∃ e, c.extra = some e ∧ e.values = none ∧ atypeIn .stringlist e = true) ∧
+      ItemsP TokP l
   | _ => True
 
 inductive NodeT (TokP : Tok → Prop) (T : Table) : Node → Prop
@@ -267,18 +268,18 @@ theorem closed {TokP : Tok → Prop} {T : Table} (hT : TableT T) :
     · intro x hx
       rcases h1 x hx with h | ⟨a, ha, rfl, hvt, hval⟩ | ⟨k, ts, n, hv, _, _⟩
       · exact hf.args x h
-      · rcases hoff with ⟨tok, htok, rfl, hk⟩ | ⟨rfl, l, rfl⟩
+      · rcases hoff with ⟨tok, htok, rfl, hk⟩ | ⟨rfl, l, rfl, hitems⟩
         · exact ⟨⟨a, ha, rfl, valueIn_of_valid a _ _ _ hval, t, ⟨tok, htok, rfl, hk⟩, hvt⟩, trivial⟩
-        · exact ⟨⟨a, ha, rfl, hvt, novalues_of_valid_list a l _ _ hval⟩, trivial⟩
-      · rcases hoff with ⟨tok, _, hv', _⟩ | ⟨_, l, hv'⟩ <;> rw [hv'] at hv <;> cases hv
+        · exact ⟨⟨⟨a, ha, rfl, hvt, novalues_of_valid_list a l _ _ hval⟩, hitems⟩, trivial⟩
+      · rcases hoff with ⟨tok, _, hv', _⟩ | ⟨_, l, hv', _⟩ <;> rw [hv'] at hv <;> cases hv
     · intro x hx
       rcases h2 x hx with h | ⟨c, hc, e, hce, hat, rfl⟩
       · exact hf.extra x h
-      · rcases hoff with ⟨tok, htok, rfl, hk⟩ | ⟨rfl, l, rfl⟩
+      · rcases hoff with ⟨tok, htok, rfl, hk⟩ | ⟨rfl, l, rfl, hitems⟩
         · obtain ⟨hp1, hp2⟩ := paramIn_of_accepts e t _ hat
           exact ⟨⟨c, hc, rfl, e, hce, hp1, t, ⟨tok, htok, rfl, hk⟩, hp2⟩, trivial⟩
         · obtain ⟨hp1, hp2⟩ := paramList_of_accepts e _ l hat
-          exact ⟨⟨c, hc, rfl, e, hce, hp1, hp2⟩, trivial⟩
+          exact ⟨⟨⟨c, hc, rfl, e, hce, hp1, hp2⟩, hitems⟩, trivial⟩
   dry := by
     intro f ld n st' pl hf hcna
     -- nothing is stored when `add` is off; the pending slot stays a slot of the definition
@@ -397,8 +398,8 @@ theorem closed {TokP : Tok → Prop} {T : Table} (hT : TableT T) :
                   obtain ⟨s, hs, hsn, _, t, htok, hvt⟩ := ht
                   exact ⟨lf, hlfmem, hlfname, Or.inl hfree, t, htok, by rw [← htypes s hs hsn]; exact hvt⟩
                 | strs k l =>
-                  obtain ⟨s, hs, hsn, hvt, _⟩ := ht
-                  exact ⟨lf, hlfmem, hlfname, by rw [← htypes s hs hsn]; exact hvt, hfree⟩
+                  obtain ⟨⟨s, hs, hsn, hvt, _⟩, hitems⟩ := ht
+                  exact ⟨⟨lf, hlfmem, hlfname, by rw [← htypes s hs hsn]; exact hvt, hfree⟩, hitems⟩
                 | test k n => trivial
                 | tests k l => trivial
       · simp at h
